@@ -202,7 +202,7 @@ package memefish
 // @   ensures result[0] == l.Buffer[l.pos] && (len(result) == 3 ==> result[1] == result[0] && result[2] == result[0] && l.Buffer[l.pos + 1] == result[0] && l.Buffer[l.pos + 2] == result[0])
 // @   ensures[C14] len(result) == 3 <==> (l.pos + 2 < len(l.Buffer) && l.Buffer[l.pos + 1] == l.Buffer[l.pos] && l.Buffer[l.pos + 2] == l.Buffer[l.pos])
 // @   modifies nothing
-// @   loop 0 invariant 1 <= i && i <= 3 && triple && (forall j: 0 <= j && j < i ==> l.pos + j < len(l.Buffer) && l.Buffer[l.pos + j] == c)
+// @   loop 0 invariant 1 <= i && i <= 3 && triple && l.pos + i <= len(l.Buffer) && (forall k: l.pos <= k && k < l.pos + i ==> l.Buffer[k] == c)
 // @   loop 0 decreases 3 - i
 
 // consumeNumber is entered on a digit, or on '.' followed by a digit.
@@ -352,6 +352,8 @@ package memefish
 // @   ensures l.Token.Kind != "<eof>" ==> l.pos > old(l.pos)
 // @   ensures !noPanic ==> l.Token.Kind != "<bad>"
 // @   ensures[C12,C14] punct1: punct1(l, old(l.pos))
+// @   ensures[C10,C14] shr: l.Token.Kind == ">>" ==> l.pos == old(l.pos) + 2
+// @   ensures l.Token.Kind != ""
 // @   ensures[C14] single: p < len(l.Buffer) && single1(b0) ==> len(l.Token.Kind) == 1 && l.Token.Kind[0] == b0 && l.pos == p + 1
 // @   ensures[C14] lt: p < len(l.Buffer) && b0 == '<' ==> ite(nextIs(l.Buffer, p, '<'), tokIs(l, p, "<<", 2), ite(nextIs(l.Buffer, p, '='), tokIs(l, p, "<=", 2), ite(nextIs(l.Buffer, p, '>'), tokIs(l, p, "<>", 2), tokIs(l, p, "<", 1))))
 // @   ensures[C14] gt: p < len(l.Buffer) && b0 == '>' ==> ite(nextIs(l.Buffer, p, '>'), tokIs(l, p, ">>", 2), ite(nextIs(l.Buffer, p, '='), tokIs(l, p, ">=", 2), tokIs(l, p, ">", 1)))
@@ -384,6 +386,8 @@ package memefish
 // @   replay l.Buffer
 // @   props C03 C13
 // @   requires LexInv(l)
+// @   ensures[C10,C14] shr: l.Token.Kind == ">>" ==> l.pos == old(l.pos) + 2
+// @   ensures l.Token.Kind != ""
 // @   ensures[C14] field: old(l.pos) < len(l.Buffer) && isIdentPart(l.Buffer[old(l.pos)]) ==> l.Token.Kind == "<ident>" && identRun(l.Buffer, old(l.pos), l.pos) && isSub(l.Token.AsString, l.Buffer, old(l.pos), l.pos)
 // @   ensures LexInv(l) && old(l.pos) <= l.pos
 // @   ensures (l.Token.Kind == "<eof>") == (old(l.pos) >= len(l.Buffer))
@@ -418,10 +422,13 @@ package memefish
 // @   ensures[C13] raw: isSub(l.Token.Raw, l.Buffer, l.Token.Pos, l.Token.End) || (l.Token.Kind == "<bad>" && len(l.Token.Raw) == 0 && l.Token.Pos == l.Token.End)
 // @   ensures[C13] eof: l.Token.Kind == "<eof>" ==> l.Token.Pos == len(l.Buffer) && l.Token.End == len(l.Buffer)
 // @   ensures[C13] nonempty: l.Token.Kind != "<eof>" && l.Token.Kind != "<bad>" ==> l.Token.Pos < l.Token.End
+// @   ensures[C03] badempty: l.Token.Kind == "<bad>" && l.Token.Pos == l.Token.End ==> l.Token.Pos == len(l.Buffer)
 // @   ensures[C13,C03] progress: l.Token.Kind != "<eof>" ==> l.pos > old(l.pos)
 // @   ensures l.lastTokenKind == old(l.Token.Kind)
 // @   ensures !noPanic ==> l.Token.Kind != "<bad>"
 // @   ensures[C12,C14] punct1: len(l.Token.Kind) == 1 ==> l.Token.End == l.Token.Pos + 1 && l.Buffer[l.Token.Pos] == l.Token.Kind[0]
+// @   ensures[C10,C14] shr: l.Token.Kind == ">>" ==> l.Token.End == l.Token.Pos + 2
+// @   ensures l.Token.Kind != ""
 // @   panics when !noPanic
 // @   modifies l.pos, l.Token.*, l.lastTokenKind, l.dotIdent, l.File.lines
 // @   loop 0 invariant LexInv(l) && old(l.pos) <= l.pos && l.pos == triviaEnd(l, old(l.pos))
